@@ -464,6 +464,10 @@ def gen_borehole_config(
             else:
                 ref_angle = pi - phi + 2 * rotate
         yp = dist_vert * sin(ref_angle - rotate)
+        if vert[0] > 0:
+            # the same quantity (offset of the vertex across the row direction) without the detour through polar
+            # coordinates, whose rounding put extents that are whole multiples of the spacing just below them
+            yp = float(vert[1]) * cos(rotate) - float(vert[0]) * sin(rotate)
         if yp < lowest_vert_val:
             lowest_vert_val = yp
             lowest_vert = vert
